@@ -5,7 +5,7 @@ f64 and the f32 representation of each p (the subject receives p in its own
 scalar type).  Re-run only when the alphabet changes; the table is committed."""
 import json, numpy as np
 from scipy import stats
-P = [2.0**-20, 0.01, 0.1, 0.5, 0.683, 0.9, 0.95, 0.99, 0.999, 1 - 2.0**-20, 1 - 2.0**-24]
+P = [1e-12, 1e-9, 2.0**-20, 0.01, 0.1, 0.5, 0.683, 0.9, 0.95, 0.99, 0.999, 1 - 2.0**-20, 1 - 2.0**-24]
 NU = list(range(1, 31)) + [100, 995, 1001, 1201, 5000]
 out = {"p": P, "nu": NU, "f64": {}, "f32": {}}
 for name, cast in (("f64", np.float64), ("f32", np.float32)):
